@@ -150,10 +150,12 @@ def run_welch(ctx, rng):
                 for jj, j in enumerate(refidx):
                     P = welch_ref(Y[i], Y[j], fs, nx, int(nx * pov))
                     e = np.max(np.abs(S[i, jj, 2:] - P[2:])) / np.max(np.abs(P))
-                    if e > worst:
+                    if np.isnan(e):
+                        e = np.inf  # a NaN entry is the worst possible deviation
+                    if e > worst or wij is None:
                         worst, wij = e, (i, j)
             ctx.maxi("welch-equivalence(per): worst relative difference", worst)
-            if worst > 1e-9:
+            if not (worst <= 1e-9):
                 # mechanism hints
                 i, j = wij
                 jj = refidx.index(j)
